@@ -170,6 +170,8 @@ def check_case(ctx, case):
     if kind == "call":
         N, M = case["N"], case["M"]
         O, F = make_stack(rng, N, M, case["vol"])
+        if case["seed"] % 2:
+            O, F = ctx.buf("O", O), ctx.buf("F", F)
         st["unique"] = case["vol"] in ("unique_dirichlet", "unique_sharp", "dominant") or (case["vol"] == "zeros")
         if case["vol"] == "zeros":
             st["unique"] = False
